@@ -99,6 +99,14 @@ theorem C26_shape :
       "call:raw, err = i.filterMembers(raw, req.Tags, req.Status, req.Name) | next:if err != nil { return err }" := by
   decide
 
+/-- What the members command documents (docs/commands/members.html.markdown, regenerated): the
+`-status`, `-tag` (and deprecated `-role`) filters are "anchored at the start and end, and must be a
+full match"; the `-name` paragraph only says "matching this regular expression" — the code (and the
+property) anchor it like the others. -/
+theorem C26_documented :
+    Gen.AnchorTemplate.documentedFilters = [("-name", false), ("-role", true), ("-status", true), ("-tag", true)] := by
+  decide
+
 /-- the interpreter of shapes, at the canonical shape, is the hand-written translation -/
 theorem filterMembersS_canonical (e : Engine) (ms : List Member) (tags : List (String × String)) (status name : String) :
     filterMembersS canonicalShape e ms tags status name = filterMembers e ms tags status name := by
@@ -331,6 +339,15 @@ theorem C26_no_validation_counterexample :
         [⟨"a", "alive", []⟩, ⟨"ax", "alive", []⟩] [] "" "a)|(?:b" = some [⟨"a", "alive", []⟩, ⟨"ax", "alive", []⟩] ∧
     filterMembersS canonicalShape escapingEngine [⟨"a", "alive", []⟩, ⟨"ax", "alive", []⟩] [] "" "a)|(?:b" = none := by
   decide
+
+/-- The engine law is needed: with an engine whose wrapped expression is NOT anchored (it
+searches for `r` anywhere — what the pre-29833e4 template did for alternations) the same filter
+lists `ax` for the name filter `a|b`. -/
+theorem C26_engine_law_needed :
+    let e : Engine := { validAlone := fun _ => true, compilesWrapped := fun _ => true,
+                        matchStr := fun p v => if p == "a|b" then search (.alt (.char 'a') (.char 'b')) v.toList else true }
+    filterMembersS Gen.AnchorTemplate.shape e [⟨"a", "alive", []⟩, ⟨"ax", "alive", []⟩] [] "" "a|b"
+      = some [⟨"a", "alive", []⟩, ⟨"ax", "alive", []⟩] := by decide
 
 /-- Regression witness (repaired in 29833e4): the old template `^%s$` applied to `a|b` is, by
 precedence, `(^a)|(b$)`; it finds a match in `ax`, which `a|b` does not match as a whole. -/
